@@ -13,7 +13,9 @@ class CFG:
         self.blocks = {b['id']: b for b in c['blocks']}
         self.preds = defaultdict(list)
         for b in c['blocks']:
-            b['succs'] = [s for s in b['succs']]
+            # edges clang proved unreachable (if (0), constant conditions) are dropped: dead code takes part in no rule
+            rf = b.get('reach') or [True] * len(b['succs'])
+            b['succs'] = [s if (i >= len(rf) or rf[i]) else None for i, s in enumerate(b['succs'])]
             for s in b['succs']:
                 if s is not None:
                     self.preds[s].append(b['id'])
